@@ -45,7 +45,11 @@ MUTANTS = [
     ("fork_child_keeps_mask", "process.posix.c", "  r = signal_mask(SIG_SETMASK, &mask.new, NULL);\n  if (r < 0) {\n    goto finish;\n  }", "", "process_fork_child", "C12/process_fork.child_clean_signal_state"),
     ("fork_child_skips_low_fds", "process.posix.c", "for (int i = 0; i <= max_fd; i++)", "for (int i = 3; i <= max_fd; i++)", "process_fork_child", "C11+C02/process_fork.child_keeps_only_excepted_descriptors"),
     ("fork_child_off_by_one_again", "process.posix.c", "for (int i = 0; i <= max_fd; i++)", "for (int i = 0; i < max_fd; i++)", "process_fork_child", "C11+C02/process_fork.child_keeps_only_excepted_descriptors"),
-    ("start_exit_handle_cloexec", "process.posix.c", "    r = handle_cloexec(options.handle.exit, false);", "    r = handle_cloexec(options.handle.exit, true);", "process_start_child", "C01+C08+C09+C11/exec.exit_handle_inherited"),
+    ("start_fork_mode_env_freed", "process.posix.c", "    env = NULL;\n\n  child:", "  child:", "process_start_child", "C03/process_start.fork_mode_child_environment_is_the_requested_live_vector"),
+    ("start_exit_handle_moved_after_dup2", "process.posix.c", "    options.handle.exit = r;\n\n    for (int i = 0; i < (int) ARRAY_SIZE(redirect); i++) {", "    for (int i = 0; i < (int) ARRAY_SIZE(redirect); i++) {", "process_start_child", "C01+C07+C08+C09+C11+C15/exec.exit_handle_inherited"),
+    ("poll_deadline_vs_infinite_timeout", "reproc.c", "if (r == 0 && first != timeout) {", "if (r == 0 && first < timeout) {", "reproc_poll_1", "C08/reproc_poll.infinite_timeout_returns_with_an_event"),
+    ("start_policy_stored_before_process_start", "reproc.c", "  r = process_start(&process->handle, argv, process_options);\n", "  if (options.deadline != REPROC_INFINITE) {\n    process->deadline = now() + options.deadline;\n  }\n\n  r = process_start(&process->handle, argv, process_options);\n", "reproc_start_parent", "C04+C08+C15/reproc_start.failure_leaves_handle_not_started"),
+    ("start_exit_handle_cloexec", "process.posix.c", "    r = handle_cloexec(options.handle.exit, false);", "    r = handle_cloexec(options.handle.exit, true);", "process_start_child", "C01+C07+C08+C09+C11+C15/exec.exit_handle_inherited"),
     ("start_chdir_after_exec_order", "process.posix.c", "    if (options.working_directory != NULL) {\n      r = chdir(options.working_directory);", "    if (options.working_directory == NULL) {\n      r = chdir(\".\");", "process_start_child", "C03/exec.working_directory"),
     ("start_env_not_installed", "process.posix.c", "    environ = env;\n", "", "process_start_child", "C03/exec.environment_is_parent_then_extra"),
     ("start_env_ignores_behavior", "process.posix.c", "options.env.behavior == REPROC_ENV_EMPTY ? NULL", "options.env.behavior == REPROC_ENV_EXTEND ? NULL", "process_start_child", "C03/exec.environment_is_parent_then_extra"),
@@ -54,6 +58,7 @@ MUTANTS = [
     ("start_child_failure_not_reaped", "process.posix.c", "    do {\n      r = waitpid(child, NULL, 0);\n    } while (r < 0 && errno == EINTR);\n    r = r < 0 ? -errno : -child_errno;\n    goto finish;", "    r = -child_errno;\n    goto finish;", "process_start_parent", "C04+C05+C06/process_start.failure_leaves_no_child_and_no_pid"),
     ("setup_input_blocking", "reproc.c", "  r = pipe_nonblocking(*pipe, true);\n  if (r < 0) {\n    return r;\n  }\n", "", "setup_input", "C17/os.write.input_nonblocking"),
     ("setup_input_restarts", "reproc.c", "r = pipe_write(*pipe, data + written, size - written);", "r = pipe_write(*pipe, data, size - written);", "setup_input", "C02/os.write.input_cursor"),
+    ("setup_input_keeps_closed_stdin_number", "reproc.c", "  *pipe = pipe_destroy(*pipe);\n\n  return 0;\n}\n\nstatic int expiry", "  pipe_destroy(*pipe);\n\n  return 0;\n}\n\nstatic int expiry", "setup_input", "C02+C09+C14/setup_input.stdin_closed_after_input"),
     ("setup_input_keeps_stdin_open", "reproc.c", "  *pipe = pipe_destroy(*pipe);\n\n  return 0;\n}\n\nstatic int expiry", "  return 0;\n}\n\nstatic int expiry", "setup_input", "C02+C09+C14/setup_input.stdin_closed_after_input"),
     ("win_join_forgets_separator_size", "process.windows.c", "      joined_size++; // Count whitespace.", "      ;", "win_argv_join", "C18/argv_join.buffer_has_room_for_every_argument"),
     ("win_quote_size_undercounts_backslashes", "process.windows.c", "      size += num_backslashes * 2 + 2;", "      size += num_backslashes * 2 + 1;", "win_argument_quoting", "C18/quote.bytes_written_equal_predicted_size"),
